@@ -439,7 +439,7 @@ class FST:
         fst_star = FST()
         state_renaming = FSTStateRemaining()
         state_renaming.add_states(list(self.states), 0)
-        self._add_extremity_states_to(fst_star, state_renaming, 0)
+        self._add_final_states_to(fst_star, state_renaming, 0)
         self._add_transitions_to(fst_star, state_renaming, 0)
         for final_state in self.final_states:
             for start_state in self.start_states:
@@ -449,14 +449,19 @@ class FST:
                     state_renaming.get_name(start_state, 0),
                     []
                 )
-        for final_state in self.start_states:
-            for start_state in self.final_states:
-                fst_star.add_transition(
-                    state_renaming.get_name(final_state, 0),
-                    "epsilon",
-                    state_renaming.get_name(start_state, 0),
-                    []
-                )
+        # A fresh state, both start and final, accepts the empty word.
+        # It cannot be entered again, so no other path is added.
+        state_renaming.add_state("star_start", 1)
+        new_start = state_renaming.get_name("star_start", 1)
+        fst_star.add_start_state(new_start)
+        fst_star.add_final_state(new_start)
+        for start_state in self.start_states:
+            fst_star.add_transition(
+                new_start,
+                "epsilon",
+                state_renaming.get_name(start_state, 0),
+                []
+            )
         return fst_star
 
     def to_networkx(self) -> nx.MultiDiGraph:
